@@ -45,10 +45,19 @@ MonDeclared(e) ==
             \/ TwoChains(e, 0, Len(e.path2))
             \/ e.hops = <<>>
 
-(* duplicate markets / no-op steps: rejected at creation ... *)
-MonRejectCreate(e) == (IsCreate(e) /\ Bad(e)) => ~e.ok
+(* the declared walk does not end in the declared output token (each step converting the previous
+   step's output; an empty path converts nothing) *)
+WrongEnd(e) ==
+  \/ EndTok(e.meta, e.path, e.tin) # e.tout
+  \/ e.dir \in {"into", "from"} /\ EndTok(e.meta, e.path2, e.tin2) # e.tout2
+(* duplicate markets / no-op steps / a walk that does not end in the declared token: rejected at creation ... *)
+MonRejectCreate(e) == (IsCreate(e) /\ (Bad(e) \/ WrongEnd(e))) => ~e.ok
 (* ... and at execution (the action is not executed: the instruction fails or the action is cancelled) *)
-MonRejectExec(e) == (IsExecute(e) /\ Bad(e)) => ~Executed(e)
+MonRejectExec(e) == (IsExecute(e) /\ (Bad(e) \/ WrongEnd(e))) => ~Executed(e)
+(* what an executed order / withdrawal pays out of the vaults is of a declared output token *)
+MonPaidDeclared(e) ==
+  (Executed(e) /\ e.dir \in {"order", "from"}) =>
+    \A t \in DOMAIN e.pre.vault : e.post.vault[t] < e.pre.vault[t] => t \in {e.tout, e.tout2}
 (* ... and by the parameter validation itself *)
 MonRejectDirect(e) == (e.op \in {"direct_primary", "direct_secondary"} /\ ~NoDup(e.path)) => ~e.ok
 
